@@ -18,7 +18,8 @@ CHUNK = 128
 RULE = (
     "case kinds: v1/v2 = one integer tuple offered to the Region1D/Region2D constructors (and the Layout1D/"
     "Layout2D constructor slots); arr = one array shape (array rotation, involution, Array2D.original_orientation, "
-    "Layout2D.original_orientation_from, all 4 corners); r1 = one (length, Region1D) with every 1D window and "
+    "Layout2D.original_orientation_from, all 4 corners; the array argument additionally in 5 non-C memory layouts; "
+    "read / in-place edit / read histories on Array2D.original_orientation, all inside the one case); r1 = one (length, Region1D) with every 1D window and "
     "every front/trailing range; reg = one (shape, Region2D): 4 corners x {util, Layout2D.rotated_from_roe_corner, "
     "new_rotated_from, extract_*_array_from} + every front/trailing/full sub-region range in bounds; ext = one "
     "(shape, region, extraction window): x0x1_after_extraction on both axes, region_after_extraction, "
@@ -32,9 +33,15 @@ ASSUMPTIONS = [
     "region arithmetic is affine in the indices with comparisons only between the enumerated indices, so "
     "shapes up to the bound exercise every ordering of the 4 (1D) / 8 (2D) free indices incl. all ties",
     "read-out corners are passed as tuples (the library compares with == against tuples)",
+    "an ndarray's contents, not its strides, are its value: Fortran-ordered, transposed, strided-window and "
+    "negative-stride views with the same contents must rotate to the same result as the C-ordered array",
+    "Array2D.original_orientation is a plain read: it describes the contents the Array2D holds at the time of the "
+    "read (after item / slice / boolean-key assignment through Array2D.__setitem__), and the ndarray it returns "
+    "belongs to the caller (writing into it changes neither the Array2D nor later reads)",
 ]
 BOUNDS = {
-    "quick": "shapes 1..5 x 1..5 (25), all 1225 valid regions, 4 corners, all 137641 region x window pairs, all "
+    "quick": "shapes 1..5 x 1..5 (25), all 1225 valid regions, 4 corners (arrays in 6 memory layouts; 4 Array2D forms x "
+    "{read, write-into-result, read, 3 in-place edits each followed by a read, copy-then-edit}), all 137641 region x window pairs, all "
     "front/trailing ranges (valid, empty and reversed) inside the array, 1D lengths 1..8 with all interval pairs, "
     "validation tuples {-1..3}^4 and {-1..3}^2",
     "thorough": "shapes 1..6 x 1..6 (36), all 3136 valid regions, 4 corners, all 659344 region x window pairs, all "
@@ -329,6 +336,115 @@ def run_v2(aa, exc, lu, v, t):
 # ----------------------------------------------------------------------------- arrays only
 
 
+FILL = 7777.0  # padding value of the parent buffers of the strided windows (never a label)
+
+
+def layouts_of(a):
+    """The same 2D contents in memory layouts other than C order: (name, array)."""
+    H, W = a.shape
+    big = np.full((H, 2 * W), FILL)
+    big[:, ::2] = a
+    bigf = np.asfortranarray(np.full((2 * H + 1, W), FILL))
+    bigf[1::2, :] = a
+    out = [
+        ("fortran", np.asfortranarray(a)),
+        ("transposed-view", np.ascontiguousarray(a.T).T),
+        ("strided-window", big[:, ::2]),
+        ("fortran-strided-window", bigf[1::2, :]),
+        ("negative-strides", np.ascontiguousarray(a[::-1, ::-1])[::-1, ::-1]),
+    ]
+    for name, x in out:
+        assert x.shape == a.shape and np.array_equal(x, a), name
+    return out
+
+
+def _edits(storage, shape):
+    """Three in-place edits through Array2D.__setitem__: (name, key for this storage, native boolean footprint, value)."""
+    import autoarray as aa
+
+    H, W = shape
+    i, j = H - 1, (W - 1) // 2
+    reg = (0, (H + 1) // 2, W // 2, W)
+    foot_item = np.zeros(shape, bool)
+    foot_item[i, j] = True
+    foot_reg = np.zeros(shape, bool)
+    for (y, x) in pixels_of(reg):
+        foot_reg[y, x] = True
+    foot_bool = np.array([[(y + 2 * x) % 3 == 0 for x in range(W)] for y in range(H)])
+    if storage == "native-stored":
+        return [
+            ("item", (i, j), foot_item, 1000.5),
+            ("region-slice", aa.Region2D(region=reg).slice, foot_reg, 0.0),
+            ("boolean-key", foot_bool.copy(), foot_bool, -7.25),
+        ]
+    k0, k1 = (H * W) // 3, max((H * W) // 3 + 1, (2 * H * W) // 3)
+    foot_sl = np.zeros(H * W, bool)
+    foot_sl[k0:k1] = True
+    return [
+        ("item", i * W + j, foot_item, 1000.5),
+        ("slim-slice", slice(k0, k1), foot_sl.reshape(shape), 0.0),
+        ("boolean-key", foot_bool.reshape(-1).copy(), foot_bool, -7.25),
+    ]
+
+
+def _held(A, shape):
+    """Contents an unmasked Array2D holds right now, read from its raw storage (not through .native)."""
+    return np.array(A.array, dtype=float).reshape(shape)
+
+
+def orientation_history(aa, v, A, first, storage, cur, c, shape, lay):
+    """Read / write / read histories on ONE Array2D whose original_orientation has just been read (-> first) and was right.
+    cur = model of the contents A holds (common orientation); expected read = ref_rot_array(model, c) at every point."""
+    base = "Array2D.original_orientation"
+    tag = "shape %s corner %s %s" % (shape, c, storage)
+
+    def read(X, model, fid, what):
+        val, e = _try(lambda: X.original_orientation)
+        want = ref_rot_array(model, c)
+        return v.ok(
+            e is None and dom.exact(arr(val), want), fid,
+            lambda: "%s: original_orientation %s -> %s, want the rotation of the contents held now %s"
+            % (tag, what, ("%s: %s" % (type(e).__name__, e)) if e is not None else arr(val).tolist(), want.tolist()),
+        )
+
+    # ---- the returned ndarray belongs to the caller
+    wrote = False
+    if isinstance(first, np.ndarray) and first.flags.writeable and first.size:
+        first[0, 0] = -99.0
+        wrote = True
+    if wrote:
+        okh = v.ok(dom.exact(_held(A, shape), cur), base + ":returned-array-aliased",
+                   lambda: "%s: writing into the returned ndarray changed the Array2D itself: %s" % (tag, _held(A, shape).tolist()))
+        if okh:
+            read(A, cur, base + ":returned-array-aliased", "read again after out[0, 0] = -99 on the first result")
+    B = A.copy()  # taken after the first read
+    curB = cur.copy()
+
+    # ---- in-place edits, each followed by a read
+    ok_edit = True
+    for name, key, foot, val in _edits(storage, shape):
+        A[key] = val
+        cur = np.where(foot, val, cur)
+        if not dom.exact(_held(A, shape), cur):
+            return  # __setitem__ itself did something else: not this property's business, nothing to compare with
+        ok_edit &= read(A, cur, base + ":after-in-place-edit", "after %s assignment" % name)
+    if storage == "native-stored":
+        val, e = _try(lambda: lay.original_orientation_from(array=A))
+        want = ref_rot_array(cur, c)
+        v.ok(e is None and dom.exact(arr(val), want), base + ":after-in-place-edit" if not ok_edit else "Layout2D.original_orientation_from:after-in-place-edit",
+             lambda: "%s: Layout2D.original_orientation_from(edited Array2D) -> %s want %s"
+             % (tag, ("%s: %s" % (type(e).__name__, e)) if e is not None else arr(val).tolist(), want.tolist()))
+
+    # ---- the copy taken after the first read, then edited
+    name, key, foot, val = _edits(storage, shape)[0]
+    B[key] = 555.5
+    curB = np.where(foot, 555.5, curB)
+    if dom.exact(_held(B, shape), curB):
+        read(B, curB, base + (":after-in-place-edit:copy" if ok_edit else ":after-in-place-edit"), "of a copy() taken after the first read, then edited")
+    if dom.exact(_held(A, shape), cur):
+        read(A, cur, base + (":after-in-place-edit:copy" if ok_edit else ":after-in-place-edit"), "of the original after its copy was edited")
+
+
 def run_arr(aa, lu, v, shape, seed):
     H, W = shape
     a = labels(shape, seed)
@@ -348,8 +464,22 @@ def run_arr(aa, lu, v, shape, seed):
             v.ok(okc and dom.exact(twice, a), "rotate:involution:array:" + key,
                  lambda: "shape %s corner %s rot(rot(a)) = %s, a = %s" % (shape, c, arr(twice).tolist(), a.tolist()))
 
+        # the same contents in other memory layouts (contents, not strides, are the value of an ndarray)
+        mid = aid if not okA else "rotate_array_via_roe_corner_from:memory-layout:" + key
+        okM = okA
+        for lname, x in layouts_of(a):
+            okc, g = _call(v, mid, lambda: lu.rotate_array_via_roe_corner_from(array=x, roe_corner=c), "shape %s corner %s %s" % (shape, c, lname))
+            okM &= okc and v.ok(dom.exact(g, ref), mid, lambda: "shape %s corner %s, %s array (strides %s): got %s want %s"
+                                % (shape, c, lname, x.strides, arr(g).tolist(), ref.tolist()))
+            v.ok(dom.exact(x, keep), "rotate_array_via_roe_corner_from:input-mutated", lambda: "%s %s" % (key, lname))
+
         # Layout2D.original_orientation_from: an array held in the common orientation goes back to its original one
         lay = aa.Layout2D(shape_2d=shape, original_roe_corner=c)
+        for lname, x in layouts_of(ref):
+            lid = mid if not okM else "Layout2D.original_orientation_from:memory-layout"
+            okc, back = _call(v, lid, lambda: lay.original_orientation_from(array=x), "%s %s" % (key, lname))
+            v.ok(okc and dom.exact(back, a), lid, lambda: "shape %s corner %s, %s array (strides %s): got %s want %s"
+                 % (shape, c, lname, x.strides, arr(back).tolist(), a.tolist()))
         okc, back = _call(v, aid if not okA else "Layout2D.original_orientation_from:ndarray",
                           lambda: lay.original_orientation_from(array=ref.copy()), key)
         v.ok(okc and dom.exact(back, a), aid if not okA else "Layout2D.original_orientation_from:ndarray",
@@ -367,11 +497,17 @@ def run_arr(aa, lu, v, shape, seed):
             # Array2D.original_orientation
             val, e = _try(lambda: A.original_orientation)
             fid = aid if (not okA and storage == "native-stored") else "Array2D.original_orientation:" + storage
-            v.ok(
+            ok1 = v.ok(
                 e is None and dom.exact(arr(val), a), fid,
                 lambda: "shape %s corner %s %s Array2D.original_orientation -> %s, want %s"
                 % (shape, c, storage, ("%s: %s" % (type(e).__name__, e)) if e is not None else arr(val).tolist(), a.tolist()),
             )
+            if ok1:
+                # a second structure of the same form carries the history (A itself stays pristine for the checks below)
+                H_ = mk()
+                first, e = _try(lambda: H_.original_orientation)
+                if e is None and dom.exact(arr(first), a):
+                    orientation_history(aa, v, H_, first, storage, ref.copy(), c, shape, lay)
             # Layout2D.original_orientation_from given the Array2D itself (native-stored only: the method documents an
             # ndarray argument and makes no promise for a slim-stored structure, so that form is not demanded)
             if storage != "native-stored":
